@@ -64,7 +64,7 @@ def gen_script(rng, maxlen=30, maxdepth=4, fns="fgh", loops=True, reads=True, au
                     out.append(["ret", nv()])
                     return "ret"
                 if k < 0.9:
-                    out.append(["raise", nv()])
+                    out.append([rng.choice(["raise", "raise", "raiseb"]), nv()])
                     return "raise"
                 e = "next" if inloop else "end"
                 out.append([e, 0])
